@@ -196,6 +196,10 @@ def symmetric_roles(ctx, rule, d, r):
         nums = [z for z in zipped if isinstance(z, Lst) and z.what == "nums" and z.srcs and z.srcs[0] != "derived"]
         for a in arrs:
             for w in nums:
+                if a.sorted_ != w.sorted_:
+                    bad.append((node.lineno, "%s is put in another order (sorted) before it is paired with %s, which stays as listed: weight i no longer meets the i-th listed input" % (
+                        (a.L if a.sorted_ else w.srcs[0]), (w.srcs[0] if a.sorted_ else a.L))))
+                    continue
                 want = (1, None) if a.part == "rest" else None
                 got = w.sliced if w.sliced not in ((None, None), (0, None)) else None
                 if got != want:
